@@ -341,7 +341,9 @@ func run(ctx *Ctx) *Result {
 				// the final state itself is not the target: convergence defect F-C02r, not a step-order defect
 				parts[2] = "not_converged_suppressed_move_at_remark"
 			}
-			res.Fail(map[string]any{"pred": parts[2], "backend": c.Backend},
+			// model_predicts: the real script is exactly the script of the Lean model of the unchanged planner, so the
+			// unsafe step is the one that model makes on this input (known findings are matched only then)
+			res.Fail(map[string]any{"pred": parts[2], "backend": c.Backend, "model_predicts": f["agree"] == "1"},
 				fmt.Sprintf("after command %s of %q packet %v gets a verdict that neither the old nor the new ACL gives", parts[0], il, packets[pk]), c)
 		}
 		if prop == "C01" || prop == "C02" {
